@@ -1122,3 +1122,28 @@ Proof.
     + unfold pending, queue, new_conn; cbn [buffer concat app]. now rewrite app_nil_r.
     + apply pending_queue.
 Qed.
+
+(* faabfc0: whatever the final flush runs into (would-block, broken pipe, reset, any OS error, script
+   exhausted), shutdown() closes the client socket AND runs the close callbacks (upstream closed), in both modes *)
+Theorem shutdown_always_closes c sel s :
+  let s' := shutdown c sel s in
+  closed (work s') = true /\
+  match upstream s with
+  | Some _ => exists u', upstream s' = Some u' /\ closed u' = true
+  | None => upstream s' = None
+  end.
+Proof.
+  cbn zeta.
+  assert (H : forall w, let s' := close_upstream (set_work (close w) s) in
+              closed (work s') = true /\
+              match upstream s with
+              | Some _ => exists u', upstream s' = Some u' /\ closed u' = true
+              | None => upstream s' = None
+              end).
+  { intros w. cbn zeta. unfold close_upstream. cbn [upstream set_work].
+    destruct (upstream s) as [u|] eqn:E; hsimpl; cbn [close closed].
+    - split; [reflexivity|]. eexists. split; reflexivity.
+    - split; [reflexivity|exact E]. }
+  unfold shutdown. destruct (threadless c); [apply H|].
+  destruct (threaded_flush (max_send c) sel (work s)) as [w r]. apply H.
+Qed.
